@@ -83,7 +83,7 @@ def build():
                   "len(flattened) == 0"],
         locals={'sql_results': K.Seq(K.Ref('SQLResult')), 'prev_sql_result': K.Opt(K.Ref('SQLResult')),
                 'prev_op': K.Opt(OP), 'sql': K.Seq(SQL)},
-        raises={'Exception': True},
+        raises={'Exception': True}, modifies=['flattened'],
         invariants={
             1: LoopInv(
                 "for op in ops:", index='i',
